@@ -5,7 +5,7 @@
    (an ancestor Assign/AugAssign/Arg/BinaryOperation for plain strings; an ancestor AssignTarget), the
    enclosing loop and the enclosing function. *)
 From Coq Require Import String List ZArith Bool Arith.
-From DV Require Import Base.Util Hooks.Names Py.Syntax Py.Sem.
+From DV Require Import Base.Util Hooks.Names Py.Syntax Py.Ops.
 Import ListNotations.
 Open Scope string_scope.
 Open Scope list_scope.
